@@ -7,6 +7,7 @@
 From V Require Import model.Base model.Conc model.Events model.UniqueIndexSet model.RobustIndexSet.
 From V Require Import proofs.UniqueIndexSetCodec proofs.UniqueIndexSetProofs proofs.UniqueIndexSetWrap proofs.RobustIndexSetProofs.
 From V Require model.Alloc proofs.AllocProofs.
+From V Require model.UniqueIndexSetRA proofs.UniqueIndexSetRAProofs.
 Open Scope N_scope.
 
 (* ---------------- HeadDetails codec (head:24 | aba:16 | borrowed:24) ---------------- *)
@@ -162,6 +163,46 @@ Example c09_uis_no_cell_conflict_refuted :
   upc_of (snd c 0%nat) = AcqRead 0 0 /\ upc_of (snd c 1%nat) = AcqWrite 0 /\ hd_head 0 = 0.
 Proof. exact uis_no_cell_conflict_refuted. Qed.
 Print Assumptions c09_uis_no_cell_conflict_refuted.
+
+(* ---------------- UniqueIndexSet under release/acquire semantics ---------------- *)
+Module UISRA.
+Import V.model.UniqueIndexSetRA V.proofs.UniqueIndexSetRAProofs.
+
+(* With the six memory orderings of the code (uis_ords_code; pinned against the implementation by
+   the trace comparison on every run), when every load and every FAILED compare-exchange of the
+   head word may return an arbitrarily stale value of its modification order (oracle) and only
+   acquire reads of release compare-exchanges transfer visibility: the structure and exclusivity
+   statements above still hold, and no next-cell value used by a successful compare-exchange was
+   read racily; for every capacity < 2^24 - 1, any number of threads, every tag-bounded schedule
+   and every oracle. *)
+Theorem c09_uisra_exclusive_and_used_race_free : forall c dist orc progs g ls,
+  c < 16777215 -> reach_via (vstep uis_ords_code) vbounded (vinit c dist orc progs) (g, ls) ->
+  vrace_used g = false /\
+  fpath (unext (vg g)) c (hd_head (uhead (vg g))) (gfree (vg g)) /\ NoDup (gfree (vg g)) /\
+  (forall i, i < c -> (In i (gfree (vg g)) <-> nthN (uown (vg g)) i None = None)) /\
+  (forall t t' i, In i (owned_by (vsc (ls t))) ->
+     i < c /\ ~ In i (gfree (vg g)) /\ NoDup (owned_by (vsc (ls t))) /\ (In i (owned_by (vsc (ls t'))) -> t = t')).
+Proof. exact uisra_exclusive_and_used_race_free. Qed.
+
+(* the acquire load, the acquire failure ordering and the release of release_raw_index's
+   compare-exchange are each necessary *)
+Example c09_uisra_orderings_necessary :
+  used_race_after uis_weak_load ra_sched = true /\
+  used_race_after uis_weak_cas ra_sched = true /\
+  used_race_after uis_weak_fail ra_sched_fail = true /\
+  used_race_after uis_ords_code ra_sched = false /\
+  used_race_after uis_ords_code ra_sched_fail = false.
+Proof. exact uisra_orderings_necessary. Qed.
+
+Example c09_uisra_nonvacuous_stale :
+  let c := fst (run (vstep uis_ords_code) [0;0;0;0;0;0; 1;1;1;1;1;1;1;1;1]%nat (vinit 2 32 [0; 5] ra_progs)) in
+  uheld (vsc (snd c 0%nat)) = [0] /\ uheld (vsc (snd c 1%nat)) = [1] /\ vrace_used (fst c) = false /\
+  updates (vg (fst c)) = 2.
+Proof. exact uisra_nonvacuous_stale. Qed.
+End UISRA.
+Print Assumptions UISRA.c09_uisra_exclusive_and_used_race_free.
+Print Assumptions UISRA.c09_uisra_orderings_necessary.
+Print Assumptions UISRA.c09_uisra_nonvacuous_stale.
 
 (* ---------------- RobustUniqueIndexSet ---------------- *)
 (* exclusivity from the cell CAS: a cell is non-empty exactly while it has a holder, and a thread
